@@ -592,20 +592,30 @@ where
 
             match (&escape, pending[i]) {
                 (Some(Escape::Quote(quote)), c) if c == *quote => escape = None,
+                // A quote cannot span lines: what looks like one is a quote
+                // left open.
+                (Some(Escape::Quote(q)), b'\n') => {
+                    return Err(io::Error::new(
+                        io::ErrorKind::InvalidInput,
+                        format!("Unterminated quote: {q}"),
+                    ));
+                }
                 (Some(Escape::Quote(_)), c) => result.push(c),
                 (Some(Escape::Slash), c) => {
                     result.push(c);
                     escape = None;
+                    in_argument = true;
                 }
                 (None, c @ (b'"' | b'\'')) => {
                     escape = Some(Escape::Quote(c));
                     in_argument = true;
                 }
-                (None, b'\\') => {
-                    escape = Some(Escape::Slash);
-                    in_argument = true;
-                }
-                (None, c) if c.is_ascii_whitespace() => {
+                // A backslash belongs to an argument only together with the
+                // character it quotes (a lone one at the end of input is dropped).
+                (None, b'\\') => escape = Some(Escape::Slash),
+                // Blanks and newlines separate arguments; other white space
+                // (carriage return, form feed, vertical tab) does not.
+                (None, c @ (b' ' | b'\t' | b'\n')) => {
                     if in_argument {
                         terminated_by_newline = c == b'\n';
                         break;
